@@ -11,3 +11,21 @@ package status
 //@ use casketfile/contracts_verif.go:dispenser_api
 //@ use @verif/specs/stdlib.spec:stdlib
 //@ use @verif/specs/stdlib.spec:casket_api
+
+//@ unit status_handler props=C11,C12 nilchecks=on filter=`status\.Status\)\.ServeHTTP$|status\.statusParse$`
+//@ // the status handler hands the configured code to WriteHeader, which panics outside 100..999: the parser only ever
+//@ // builds rules with a code in that range (obligation at every NewRule call), and the handler relies on exactly that
+//@ // representation invariant of the rules it selects.
+//@ use casketfile/contracts_verif.go:dispenser_api
+//@ use @verif/specs/stdlib.spec:stdlib
+//@ use @verif/specs/stdlib.spec:nethttp_sinks
+//@ extern strconv.Atoi
+//@ func NewRule
+//@   requires [only_valid_codes_become_rules] 100 <= status && status <= 999
+//@   ensures result != nil && result.StatusCode == status
+//@ extern (github.com/tmpim/casket/caskethttp/httpserver.ConfigSelector).Select
+//@ func statusParse
+//@   requires c != nil
+//@ func (Status).ServeHTTP
+//@   requires w != nil && r != nil && status.Next != nil
+//@   requires forallT(k, *Rule, k != nil ==> (100 <= k.StatusCode && k.StatusCode <= 999))
